@@ -781,6 +781,7 @@ pub struct InjectedPanic(pub u32);
 /// Installs a panic hook that stays silent for injected panics and prints
 /// everything else.
 pub fn install_panic_hook() {
+    static SHOWN: std::sync::atomic::AtomicUsize = std::sync::atomic::AtomicUsize::new(0);
     let prev = std::panic::take_hook();
     std::panic::set_hook(Box::new(move |info| {
         if info.payload().downcast_ref::<InjectedPanic>().is_some() {
@@ -788,6 +789,13 @@ pub fn install_panic_hook() {
         }
         if std::env::var_os("VERIF_PANIC_TRACE").is_some() {
             prev(info);
+            return;
+        }
+        // one line for the first few foreign panics: if the process is aborted later (a panic inside a
+        // panic cannot be caught) the driver can still say where the first panic came from
+        if SHOWN.fetch_add(1, std::sync::atomic::Ordering::Relaxed) < 6 {
+            let loc = info.location().map(|l| format!("{}:{}", l.file(), l.line())).unwrap_or_default();
+            eprintln!("note: panic observed at {} :: {}", loc, panic_message(info.payload()));
         }
     }));
 }
